@@ -49,6 +49,7 @@ type Profile struct {
 	CharAlt    int  // percentage of choices built from single-character literals and small classes over a shared alphabet
 	ThrowIdiom int  // percentage of rules built as labelled-failure idioms (guarded items in sequence / nested)
 	ScanPct    int  // percentage of grammars wrapped in a scanning start rule S <- (v:R0 w:. {..} / .)*
+	NotShare   int  // percentage of choices of the form !R x / R y (or R y / !R x): one rule evaluated at one offset inside and outside a negative predicate
 }
 
 var AllTmpls = func() []Tmpl {
@@ -339,6 +340,26 @@ func (g *gctx) genExpr(depth int) *Node {
 	case KAlt:
 		n := g.newNode(KAlt)
 		cnt := 2 + g.r.Intn(2)
+		if g.p.NotShare > 0 && g.pct(g.p.NotShare) {
+			ref := fmt.Sprintf("R%d", g.r.Intn(g.nrules))
+			mk := func() *Node { r := g.newNode(KRef); r.Ref = ref; return r }
+			not := g.newNode(KNot)
+			not.Kids = []*Node{mk()}
+			s1 := g.newNode(KSeq)
+			s1.Kids = []*Node{not, g.genExpr(depth + 1)}
+			second := mk()
+			if g.pct(50) {
+				s2 := g.newNode(KSeq)
+				s2.Kids = []*Node{mk(), g.genExpr(depth + 1)}
+				second = s2
+			}
+			if g.pct(50) {
+				n.Kids = []*Node{s1, second}
+			} else {
+				n.Kids = []*Node{second, s1}
+			}
+			return n
+		}
 		if g.pct(g.p.CharAlt) {
 			// "0" / [012] / [2345]: what the grammar optimizer merges into one class (with repeated characters)
 			alpha := []string{"a", "b", "c", "0", "1", "+"}
@@ -883,7 +904,7 @@ func GenGrammar(p *Profile, seed int64) (rules []*Rule, blocks map[int]*Block, g
 	for i := 0; i < g.nrules; i++ {
 		r := &Rule{Name: fmt.Sprintf("R%d", i)}
 		if g.pct(15) {
-			r.Display = fmt.Sprintf("rule %d", i)
+			r.Display = fmt.Sprintf("%q", fmt.Sprintf("rule %d", i)) // the raw literal text, quotes included: what the front-end stores and the builder emits
 		}
 		if p.Throw && g.pct(p.ThrowIdiom) {
 			r.Expr = g.genThrowRule()
